@@ -902,7 +902,23 @@ func c07Held(c *Ctx, cs c14Case) {
 	if v, ok := cl.Get(ctlKey); !ok || v != ctlVal {
 		e.fail("hidden-before-expiry/get-during-sweep", "the key written without ttl is not retrievable during the sweep")
 	}
+	// a fresh TTL written while the sweep is in progress must not be cut short by that sweep (or the next one)
+	fresh := cl.NextVal(0)
+	const freshTTL = 900 * time.Millisecond
+	f0 := time.Now()
+	cl.Set(0, fresh, 1, freshTTL)
 	e.sw.releaseHold()
+	for _, at := range []time.Duration{100, 300, 500, 700} {
+		time.Sleep(time.Until(f0.Add(at * time.Millisecond)))
+		v, ok := cl.Get(0)
+		if g1 := time.Now(); g1.Before(f0.Add(freshTTL)) {
+			r.Obs("observations_of_fresh_ttl_written_during_sweep", 1)
+			if !ok || v != fresh {
+				e.fail("hidden-before-expiry/fresh-ttl-written-during-sweep", fmt.Sprintf("key re-written with ttl %v while the sweep was %s: Get %v later = (%#x,%v), %v before the earliest possible expiration", freshTTL, cs.Position, g1.Sub(f0).Round(time.Millisecond), v, ok, f0.Add(freshTTL).Sub(g1).Round(time.Millisecond)))
+				break
+			}
+		}
+	}
 	for _, ob := range []string{"get", "getttl", "iter"} {
 		r.DistinctKey("c07d/%s/%d/%s", cs.Position, cs.Nth, ob)
 	}
